@@ -122,7 +122,7 @@ def jobs_for(world, prop):
             continue
         seen.add(key)
         fi = world.repo.get(q)
-        if fi is None or cls is None:
+        if fi is None or cls is None or cls.startswith("<"):
             order.append(("target", (q, cls), [cls]))
             continue
         uses_type = any(("type(self)" in cl) for cl in c.ensures + c.requires)
@@ -195,7 +195,7 @@ def run_job(job):
             engs = [(eng, False)]
         else:
             q, cls = key
-            c = world.find_contract(q, cls) if cls else world.contracts[(q, None)]
+            c = world.contracts[(q, cls)] if (q, cls) in world.contracts else (world.find_contract(q, cls) if cls else world.contracts[(q, None)])
             fi = world.repo.get(q)
             tname = "%s%s" % (q, "" if cls is None or (fi and cls == fi.cls) else " [self: %s]" % cls)
             eng = world.verify_target(c, cls)
